@@ -450,6 +450,11 @@ def gen_case(rnd, cid, kind, images, tier, comp_cfg=None):
         raise ValueError(kind)
     c.img = img
     gen_ops(rnd, c, img, rnd.randint(0, 8), "H", state)
+    if kind in ("meta", "dir") and cid % 3 == 0:
+        # "last holder" life cycle: the creator drops its own references to file and compressor before the
+        # copy, so original and copy hold the LAST ones and the second drop runs the destroy hooks of file and
+        # compressor (release_safe_general; decided by the case number, not by rnd: the other cases are unchanged)
+        c.lines.append(("RELENV", None, None))
     c.copy()
     order = rnd.choice(["OC", "CO", "O", "C", ""])
     # interleaved ops, first drop, ops on the survivor, second drop
@@ -571,6 +576,9 @@ def parse_case(c, lines):
             if l is None:
                 return out
             out["rcs"].append(("COPY", l))
+        elif text == "RELENV":
+            if next(it, None) is None:
+                return out
         elif text.startswith("DROP "):
             l = next(it, None)
             if l is None:
@@ -616,6 +624,8 @@ def model_events(c, parsed):
             live["C"] = parsed["copy"] not in (None, "null", "dead")
             # O's stream, if open, is already counted in rc=
             continue
+        if text == "RELENV":
+            continue        # before the copy: its effect is in the counts of the SHAPE line
         if text.startswith("DROP "):
             w = text[5]
             if w in "OC" and live.get(w):
@@ -731,6 +741,9 @@ def evaluate(ctx, cases, results, drv, hooks="fixed"):
                                  % (c.cid, tag, p["copy"][:9]), ""))
         # the data reader cases keep an auxiliary directory reader (2 meta readers) for path lookups
         want_final = "RC file=3 cmp=3" if c.kind == "data" else "RC file=1 cmp=1"
+        if any(t == "RELENV" for t, _g, _s in c.lines):
+            want_final = "RC file=0 cmp=0"      # the objects held the last references: both are gone
+            stats["lastholder"] = stats.get("lastholder", 0) + 1
         if p["final"] is not None and c.kind in ENV_KINDS and p["final"] != want_final:
             prop_bad.append((c, "%s:shared-refcount" % c.kind,
                              "case %d [%s]: after releasing everything file/compressor refcounts are %s"
@@ -904,11 +917,17 @@ def run(ctx):
         "compare_inum, block_compare, compare_u64 - tied by sign on generated key sets - and checked on adversarial keys for every "
         "comparator the census finds handed to rbtree_init / qsort in the working tree); fewer than 2^30 entries in a hash table (32 bit address arithmetic of the last row of hash_sizes[] "
         "can wrap: hash_table_last_row_wraps); hashes are 32 bit values",
-        "operations between copy and release are 'local' (touch only the object's own cells and fresh ones, keep it "
-        "well-formed, are functions of its abstract value): hypothesis of interleaving_independent, exhibited for one "
-        "concrete operation (run_set) and observed for the real operations through the twin comparison",
-        "release_safe assumes somebody else still holds a reference to file/compressor (slack); the case where the "
-        "readers hold the last reference is observed by the harness only",
+        "operations between copy and release are 'shared-preserving' (touch only the object's own cells, fresh ones and the "
+        "scratch / stream cells OWNED by the shared file / compressor, keep header, count and configuration of the shared "
+        "objects, keep the object well-formed, are functions of its abstract value and of the shared objects' views): "
+        "hypothesis of interleaving_independent_shared / copy_ops_release_shared; proved for the models of the id table "
+        "operations, a meta reader seek+read, a data reader block read and an xattr reader lookup under the PROVISO that the compressor's do_block is a "
+        "function of (configuration, input) - what seed C10-3 and finding F22 violate; for the C code that proviso is what the "
+        "twin comparison of this check and C10's tie observe",
+        "the release theorems assume every reference held by the object (pair) is counted (cnt <= refcount) and that the "
+        "shared objects are closed well-formed objects disjoint from each other and from the pair (checked by copyable_g on "
+        "every model heap); an outside holder of file / compressor is NOT assumed any more (release_safe_general) and the "
+        "last-holder life cycles are run on the implementation (RELENV cases of kinds meta and dir)",
         "allocation failure inside a copy hook is outside the property (C13); failure paths are not modelled",
     ]
     rnd = random.Random(ctx.seed * 7919 + 19)
@@ -964,6 +983,7 @@ def run(ctx):
                                    ",".join(comps)))
     ctx.coverage["distribution"] = dict(answers_compared_with_twin=stats["answers"], copies=stats["copies"],
                                         layer2_graphs_compared=stats["l2"], layer1_traces_compared=stats["l1"],
+                                        last_holder_life_cycles=stats.get("lastholder", 0),
                                         crashed=len([1 for v in results.values() if v[1]]),
                                         pool_allocator_cases=(pool_stats or {}).get("cases", 0))
     ctx.coverage["distribution"]["comparator_census"] = cstats
@@ -1068,6 +1088,9 @@ def replay(ctx, rp, info, exe, drv):
         script = [l.replace(spec["path"], img) for l in script]
     c = Case(cj["cid"], cj["kind"], [], sub=cj.get("sub", ""))
     c.script = lambda: script
+    if spec:
+        # a violation found by this replay is stored with the image recipe again
+        c.img = type("ReplayImage", (), dict(comp=spec["comp"], seed=spec["seed"], path=img))()
     hdr = script[0].split()
     c.args = [int(x) if re.fullmatch(r"\d+", x) else x for x in hdr[3:]]
     # rebuild tags from the script: twin lines follow their originals
@@ -1075,7 +1098,7 @@ def replay(ctx, rp, info, exe, drv):
     prev = None
     for l in script[1:-1]:
         t = l.split()
-        if t[0] in ("COPY", "DROP") or l == "Q sclose":
+        if t[0] in ("COPY", "DROP", "RELENV") or l == "Q sclose":
             c.lines.append((l, None, None))
             continue
         body = " ".join(t[1:])
